@@ -227,6 +227,18 @@ theorem C06_abandoned_at_most_once_more (m B : Nat) (s : St) (hc : CfgOk s.snd.c
   exact ⟨fun c hc' hcm => (hr.inf c hc' hcm).2,
     fun orc sel woke p hp e he hem => (gather_emits (frozen_hyp m B) _ hr orc sel woke p hp e he hem).2⟩
 
+/-- non-vacuity: the hypotheses hold for message 1 (TSN 1001) in the D21 state after its fast retransmission (marked, all in
+flight, `psi` = 2 + 1 pending mark): it is transmitted once more and then never again -/
+example :
+    let s1 := run (init { mtu := 1200, maxPayload := 1172 } false 1000 1048576)
+      [.openS 1 false 2 50, .write 1 53 1100 none, .write 1 53 1100 none, .write 1 53 1100 none,
+       .gather Sender.freeOracle [0, 0, 0] none, .tick 100 0 [], .t3,
+       .sack 999 1500 [(3, 3)] [], .sack 999 1500 [(3, 3)] [], .sack 999 1500 [(3, 3)] [],
+       .gather Sender.freeOracle [] none]
+    (1 < s1.snd.nextMsg ∧ 1 ∈ s1.snd.abandonedMsgs ∧ 1 ∈ s1.snd.allInflightMsgs) ∧
+    s1.snd.inflight.all (fun c => c.msg != 1 || decide (psi c ≤ 3)) = true ∧ s1.snd.pending.all (fun c => c.msg != 1) = true ∧
+    s1.waiters = [] := by decide
+
 /-- **Lifetime L: what the code really guarantees** (partial: D21).
 FULL STATEMENT (false for this implementation, `C06_D21_witness`): once the lifetime of a message has expired at most ONE
 further transmission of it occurs.
